@@ -22,11 +22,13 @@ def fn(cx, p):
 
 
 def canon_elems(t, seqterm, nfc):
-    """rewrite elem(seq, idx, f) so that equal index expressions become identical terms"""
+    """rewrite elem(seq, idx, f) so that equal index expressions become identical terms
+    (saturating subtractions / minima are resolved under len ≥ 3, which the entry assertion guarantees)"""
     m = {}
+    lower = {('len', seqterm): 3}
     for x in subterms(t):
         if x[0] == 'elem' and x[1] == seqterm:
-            key = nfc.show(nfc(x[2]))
+            key = nfc.show(nfc(int_simplify(x[2], nfc, lower)))
             m[x] = ('elem', seqterm, ('idx', key), x[3])
     return subst_term(t, m) if m else t
 
@@ -237,43 +239,26 @@ def assembly(cx, rep, seg, mid):
             return (e(i1, 'y') - e(i0, 'y')) / (e(i1, 'x') - e(i0, 'x'))
 
         one = ('ic', 1)
-        # (i) the mapped closure is segment(f0, k0, f1, k1) on its arguments, in order
-        s = seq.src
-        if not (isinstance(s, Stream) and s.kind == 'map'):
-            rep.ob('align', inst, False, 'segments are not produced by a map over the zipped slopes and knots', fn=inst, file=file, line=line)
+        # (i)+(ii) piece ι is `segment(Fa, Ka, Fb, Kb)` for some argument terms: recover them by matching the value-numbered
+        # piece against the summary of segment() (whatever pipeline — zip, windows, index loop — delivered the arguments)
+        from ..terms import match_term
+        pat = ('struct', 'piecewise::Segment', seg_end, ('struct', 'poly::Poly3', ('arr',) + tuple(seg_lanes)))
+        got = it.abstract(st, E)
+        vars_ = {sym(n) for n in ('f0', 'f1', 'k0.x', 'k0.y', 'k1.x', 'k1.y')}
+        binds = {}
+        ok_m = match_term(pat, got, binds, vars_)
+        rep.ob('align', inst + ':closure', ok_m and len(binds) == 6, 'piece ι = segment(Fa, Ka, Fb, Kb) for argument terms recovered by matching',
+               fn=inst, file=file, line=line,
+               msg='a piece of the spline is not the result of segment(left slope, left knot, right slope, right knot)')
+        if not (ok_m and len(binds) == 6):
             return
-        inner, cell = s.parts
-        st2 = st.copy()
-        ctx = CallCtx(it, None, st2, None, [], None, None)
-        k0v = it.materialize({'k': 'adt', 'path': 'poly::Knot', 'args': []}, 'k0', st2)
-        k1v = it.materialize({'k': 'adt', 'path': 'poly::Knot', 'args': []}, 'k1', st2)
-        arg = Tup((Tup((Tup((sym('f0'), Ref(it.alloc(st2, k0v, 'k0'), ()))), sym('f1'))), Ref(it.alloc(st2, k1v, 'k1'), ())))
-        try:
-            outv = it.call_closure(ctx, cell, [arg])
-            ok_cl = it.abstract(ctx.state, outv) == ('struct', 'piecewise::Segment', seg_end, ('struct', 'poly::Poly3', ('arr',) + tuple(seg_lanes)))
-        except Unsupported:
-            ok_cl = False
-        rep.ob('align', inst + ':closure', ok_cl, 'each zipped element (((f0,&k0),f1),&k1) is mapped to segment(f0, k0, f1, k1)', fn=inst, file=file, line=line,
-               msg='the assembly closure does not pass its slopes and knots to segment() in the order (left slope, left knot, right slope, right knot)')
-        # (ii) what the zipped stream delivers at position ι
-        ctx2 = CallCtx(it, None, st.copy(), None, [], None, None)
-        tup = stream_elem(ctx2, inner, iv)
-        try:
-            Fa, k0r, Fb, k1r = tup.fields[0].fields[0].fields[0], tup.fields[0].fields[0].fields[1], tup.fields[0].fields[1], tup.fields[1]
-        except (AttributeError, IndexError):
-            rep.ob('align', inst, False, 'zipped element does not have the shape (((slope, &knot), slope), &knot)', fn=inst, file=file, line=line)
-            return
+        Fa, Fb = binds[sym('f0')], binds[sym('f1')]
 
-        def knot_index(r):
-            if isinstance(r, Ref) and r.path and r.path[-1][0] in ('e', 'i'):
-                try:
-                    base = it.read(ctx2.state, r.root, r.path[:-1])
-                except Unsupported:
-                    return None
-                if isinstance(base, SeqSym) and base.name == 'ks0n':
-                    return r.path[-1][1] if r.path[-1][0] == 'e' else ('ic', r.path[-1][1])
+        def knot_index(bx, by):
+            if bx[0] == 'elem' and by[0] == 'elem' and bx[1] == K and by[1] == K and bx[3] == 'x' and by[3] == 'y' and nfc(bx[2]).equals(nfc(by[2])):
+                return bx[2]
             return None
-        i0, i1 = knot_index(k0r), knot_index(k1r)
+        i0, i1 = knot_index(binds[sym('k0.x')], binds[sym('k0.y')]), knot_index(binds[sym('k1.x')], binds[sym('k1.y')])
         okk = i0 is not None and i1 is not None and nfc(i0).equals(nfc(iv)) and nfc(i1).equals(nfc(iv) + RF.const(1))
         rep.ob('align', inst + ':knots', okk, 'piece ι is built on knots K[ι], K[ι+1]', fn=inst, file=file, line=line,
                msg='piece ι is built on knots K[%s], K[%s]; expected K[ι], K[ι+1]' % (term_str(i0) if i0 else '?', term_str(i1) if i1 else '?'))
